@@ -83,7 +83,7 @@ func (f *FuncVC) generate() {
 		ev := f.entryEval(st)
 		for _, c := range f.con.Requires {
 			f.sc.add("; requires " + c.Text)
-			f.sc.assert(ev.evalBool(c.Expr))
+			f.sc.assert(ev.assuming().evalBool(c.Expr))
 		}
 		f.modTargets = f.resolveMods(ev, f.con.Modifies)
 		f.entry = st.clone()
@@ -570,11 +570,11 @@ func (f *FuncVC) loopHead(st *State, li *loopInfo) {
 		ev := f.invEval(st, li)
 		for _, c := range li.con.Invariants {
 			f.sc.add("; loop invariant (assumed) " + c.Text)
-			f.assume(st, ev.evalBool(c.Expr))
+			f.assume(st, ev.assuming().evalBool(c.Expr))
 		}
 		for _, c := range li.con.FreeInvariants {
 			f.sc.add("; FREE loop invariant (assumed, unchecked) " + c.Text)
-			f.assume(st, ev.evalBool(c.Expr))
+			f.assume(st, ev.assuming().evalBool(c.Expr))
 			f.usedAssumed[fmt.Sprintf("UNCHECKED free invariant in %s loop %d: %s", f.name(), li.ordinal, c.Text)] = true
 		}
 		if li.con.Decreases != nil {
